@@ -125,6 +125,7 @@ PROPS["C05"] = {
 }
 
 PROPS["C14"] = {
+    "confirm_reruns": True,
     "id": "C14",
     "lean_modules": ["JT.Props.C14"],
     "extractors": ["concshape"],
@@ -164,6 +165,7 @@ PROPS["C08"] = {
 }
 
 PROPS["C06"] = {
+    "confirm_reruns": True,
     "id": "C06",
     "lean_modules": ["JT.Props.C06"],
     "extractors": ["replytable", "concshape"],
@@ -186,6 +188,7 @@ PROPS["C06"] = {
 }
 
 PROPS["C09"] = {
+    "confirm_reruns": True,
     "id": "C09",
     "lean_modules": ["JT.Props.C09"],
     "extractors": ["clones"],
@@ -253,6 +256,7 @@ _SOCK_TB = [KERNEL, AXIOMS, HARNESS,
             "wall-clock bounds (timeout plus slack) are tested, not proved"]
 
 PROPS["C12"] = {
+    "confirm_reruns": True,
     "id": "C12",
     "lean_modules": ["JT.Props.C12"],
     "extractors": ["concshape"],
@@ -272,6 +276,7 @@ PROPS["C12"] = {
 }
 
 PROPS["C13"] = {
+    "confirm_reruns": True,
     "id": "C13",
     "lean_modules": ["JT.Props.C13"],
     "extractors": ["concshape"],
@@ -291,6 +296,7 @@ PROPS["C13"] = {
 }
 
 PROPS["C11"] = {
+    "confirm_reruns": True,
     "id": "C11",
     "lean_modules": ["JT.Props.C11"],
     "extractors": ["concshape"],
@@ -310,6 +316,7 @@ PROPS["C11"] = {
 }
 
 PROPS["C15"] = {
+    "confirm_reruns": True,
     "id": "C15",
     "lean_modules": ["JT.Props.C15", "JT.Props.C16"],
     "functional_ops": ["att"],
@@ -329,6 +336,7 @@ PROPS["C15"] = {
 }
 
 PROPS["C19"] = {
+    "confirm_reruns": True,
     "id": "C19",
     "lean_modules": ["JT.Props.C19"],
     "extractors": ["saveguard"],
@@ -351,6 +359,7 @@ PROPS["C19"] = {
 }
 
 PROPS["C20"] = {
+    "confirm_reruns": True,
     "id": "C20",
     "lean_modules": ["JT.Props.C20", "JT.Props.C01"],
     "extractors": ["termdefaults", "replytable"],
@@ -373,6 +382,7 @@ PROPS["C20"] = {
 }
 
 PROPS["C10"] = {
+    "confirm_reruns": True,
     "id": "C10",
     "lean_modules": ["JT.Props.C10", "JT.Props.C03", "JT.Props.C05", "JT.Props.C02"],
     "extractors": [],
